@@ -8,6 +8,7 @@ From ACPI Require Import Impl.Mcfg Impl.Xsdt Impl.Srat Spec.McfgS Spec.XsdtS Spe
   Proofs.MadtRefP Proofs.McfgRefP Proofs.XsdtRefP Proofs.SratRefP Proofs.FadtRefP Proofs.RsdpRefP Proofs.FixedRefP.
 From ACPI Require Import Impl.Rhct Impl.Viot Impl.Rimt Spec.RhctS Spec.ViotS Spec.RimtS Proofs.RhctRefP Proofs.ViotRefP Proofs.RimtRefP.
 From ACPI Require Import Impl.Cedt Impl.Rqsc Impl.Hest Spec.CedtS Spec.RqscS Spec.HestS Proofs.RqscP Proofs.HestP Proofs.CedtRefP Proofs.RqscRefP Proofs.HestRefP.
+From ACPI Require Import Impl.Pptt Impl.Hmat Impl.Slit Spec.PpttS Spec.HmatS Spec.SlitS Proofs.FixedP Proofs.PpttRefP Proofs.HmatRefP Proofs.SlitRefP.
 From ACPI Require Import Impl.Fadt Impl.Spcr Impl.Bert Impl.Tpm2 Impl.Rsdp Impl.Facs
   Spec.FadtS Spec.SpcrS Spec.BertS Spec.Tpm2S Spec.RsdpS Spec.FacsS.
 Import ListNotations.
@@ -103,6 +104,26 @@ Theorem c04_hest_refines :
                  Hest.hest_image s = Some r.
 Proof. exact hest_table_refines. Qed.
 
+(* PPTT (processor and cache nodes referring to earlier nodes by handle; cache attribute setters), HMAT (proximity, memory-side
+   cache and system-locality structures with any sequence of cell assignments), SLIT (any accepted cell assignments) *)
+Theorem c04_pptt_refines :
+  forall md ctor ops r,
+    ts_image pptt_spec ctor ops = Some r -> N.of_nat (length r) < 2 ^ 32 ->
+    exists s0 s, pptt_new ctor = Some s0 /\ run_adds pptt_addition md s0 ops = Some s /\ tbl_image s = r.
+Proof. exact pptt_refines. Qed.
+
+Theorem c04_hmat_refines :
+  forall md ctor ops r,
+    ts_image hmat_spec ctor ops = Some r -> N.of_nat (length r) < 2 ^ 32 ->
+    exists s0 s, hmat_new ctor = Some s0 /\ run_adds (hmat_addition md) md s0 ops = Some s /\ tbl_image s = r.
+Proof. exact hmat_refines. Qed.
+
+Theorem c04_slit_refines :
+  forall md ctor ops r,
+    ts_image slit_spec ctor ops = Some r ->
+    exists s0 s, slit_new ctor = Some s0 /\ run_steps (slit_step md) s0 ops = Some s /\ Impl.Slit.slit_image s = r.
+Proof. exact slit_refines. Qed.
+
 (* FADT (any builder calls), SPCR, BERT, TCPA server / client, TPM2 (with or without log area), RSDP, FACS;
    refines spec wf new step image := forall md ctor ops r, ts_image spec ctor ops = Some r -> wf ctor ->
                                      exists s0 s, new ctor = Some s0 /\ run_steps (step md) s0 ops = Some s /\ image s = r *)
@@ -130,3 +151,6 @@ Print Assumptions c04_rimt_refines.
 Print Assumptions c04_cedt_refines.
 Print Assumptions c04_rqsc_refines.
 Print Assumptions c04_hest_refines.
+Print Assumptions c04_pptt_refines.
+Print Assumptions c04_hmat_refines.
+Print Assumptions c04_slit_refines.
